@@ -1,15 +1,75 @@
-# executed by gen_manifest.py
+# executed by gen_manifest.py: one claim(...) per property with a check, NA[...] otherwise
+FMT = "Diagnostic text is outside the claim (core::fmt::write stubbed) unless the harness says otherwise. "
+MODEL = "Option/resource maps are the fixed-capacity array model of /verif/engine/verif_alloc (differentially tested against std in setup; off in replay) unless the harness says it runs on std's containers. "
+
+claim("C01",
+      "The encoder is cut along its loop and every piece is decided symbolically against the RFC 7252 section 3.1 reference image: header/token (all first bytes, codes, ids, token 0..8), payload marker rule, one option with every number x value length 0..300, two options with every pair n1<n2, repeated numbers, clear/re-add, public add_option in both orders; three options in the thorough tier. The decode direction is C03; together they give decode(encode(m)) = m inside both bounds.",
+      MODEL + FMT + "More than 3 distinct option numbers, value contents beyond one symbolic byte pattern, and the ordering done by std's BTreeMap are outside.",
+      "Kani/CBMC bounded model checking of to_bytes_internal against an RFC-derived reference encoder", "DESIGN.md section 3 C01")
+claim("C02",
+      "Composition (D) C03 field equality of every accepted datagram with the reference parse + (E) C01 exact image of every structured message, plus direct parse->serialise queries on concrete layouts with all free bits symbolic (two options with extended delta, payload; lone trailing marker; payload of a 0.00 message).",
+      MODEL + FMT + "The direct query over every byte string does not fit (out of memory at 6 bytes); the general claim rests on the composition and on the uniqueness of the RFC 7252 delta/length encoding.",
+      "Kani/CBMC bounded model checking; composition of C03 and C01 plus direct re-encode on concrete layouts", "DESIGN.md section 3 C02")
+claim("C03",
+      "Every byte string of length 0..8 is decided against a three-valued RFC 7252 reference parser: no panic/overflow/out-of-bounds read (Kani's implicit checks), must-reject => Err, must-accept => Ok; framing equality (numbers, lengths, counts, payload range) for every string up to 7 bytes; byte-for-byte content equality on concrete layouts reaching one- and two-byte extended deltas and a one-byte extended length. 11 bytes in the thorough tier.",
+      MODEL + FMT + "Datagrams longer than the bound are outside; that 8 bytes exercise the loop body from every loop state is an argument, not a query.",
+      "Kani/CBMC bounded model checking of Packet::from_bytes against a three-valued reference parser", "DESIGN.md section 3 C03")
+claim("C04",
+      "Limit semantics decided for all limits (every usize) x symbolic payload / option / token lengths up to 1400 bytes: Ok with exactly the wire length iff it is within the limit, else a packet-length error; to_bytes = MAX_SIZE; unlimited always Ok. Every ptr::copy/set_len is checked by Kani against the allocation CBMC tracks for the preceding reserve (the memory-safety clause is decided by the solver, not by ASan). Thorough: option value lengths 65790..65820 around the 16-bit field limit.",
+      MODEL + FMT + "One symbolic length per harness; values are zero-filled.",
+      "Kani/CBMC bounded model checking with symbolic lengths and limits; pointer checks on the unsafe copies", "DESIGN.md section 3 C04")
 claim("C05",
-      "Every registry clause is decided over its whole finite domain as one symbolic variable (all 65536 option numbers, all 2^64 content-format ids, all 256 code bytes and first header bytes) against tables transcribed from the IANA registries; the dotted text form runs through the real core::fmt and str::parse code.",
-      "Oracle tables in /verif/harness/{header,packet}.rs are transcribed by hand from IANA/RFC text. Kani models the dev profile.",
+      "Every registry clause is decided over its whole finite domain as one symbolic variable (all 65536 option numbers, all 2^64 content-format ids, all 256 code bytes and first header bytes) against tables transcribed from the IANA registries; the dotted text form runs through the real core::fmt (and, thorough tier, str::parse) code.",
+      "Oracle tables in /verif/harness/{header,packet}.rs are transcribed by hand from IANA/RFC text.",
       "Kani/CBMC bounded model checking of the real conversion functions, full finite domain symbolic", "DESIGN.md section 3 C05")
 claim("C06",
-      "Encoders decided for every value of each width (u8, u16, u32, u64 as one symbolic variable each) against a shortest-big-endian reference; decoders for every byte string of length 0..10.",
-      "Diagnostic text of the error is outside the claim (core::fmt::write stubbed).",
+      "Encoders decided for every value of each width (u8, u16, u32, u64 as one symbolic variable each) against a shortest-big-endian reference; decoders for every byte string of length 0..10; typed accessors on a packet for every pair of u32 values; text options for every byte string up to 2 bytes (3 thorough) through std's real UTF-8 validator against an independent RFC 3629 case table.",
+      MODEL + FMT + "Strings longer than 3 bytes are outside.",
       "Kani/CBMC bounded model checking, full-width symbolic integers", "DESIGN.md section 3 C06")
+claim("C07",
+      "CoapResponse::new / from_packet decided for every first header byte x code x message id x token length 0..8 with symbolic bytes; apply_from_error for every error code shape, message up to 3 bytes, with and without an existing content format.",
+      MODEL + FMT,
+      "Kani/CBMC bounded model checking over the full header domain", "DESIGN.md section 3 C07")
+claim("C08",
+      "Decomposed: (a) one serve step from an arbitrary cached response x arbitrary block request (body 0..40 at block size 16; 0..80 at 32 thorough): payload slice, more flag, Block2 echo, option echo, request id/token; (b) cache release exactly after the final block and the recorded-preference lemma; (c) first response of a transfer through the public intercept_response with the cache lookup modelled. The reassembly statement is the sum of the steps over num = 0,1,2,... (argument, not a query).",
+      MODEL + FMT + "Bodies above 80 bytes, block sizes above 32, the real LruCache (key mapping, expiry) are outside.",
+      "Kani/CBMC bounded model checking, inductive step from an arbitrary cached state", "DESIGN.md section 3 C08")
+claim("C10",
+      "negotiate_block_size_if_necessary decided for all overheads, payloads, budgets in the property's band and client blocks (none / any num, szx 0..7): power of two 16..1024, <= client size, fits the budget, client size kept with 32 bytes to spare, unfragmented => fits; a bridge harness ties the measured overhead to real encoded messages (marker + block options within the 12-byte allowance); the 4.13 hint path of a request without Block1.",
+      MODEL + FMT + "More than 2 pre-existing options in the bridge harness are outside.",
+      "Kani/CBMC bounded model checking of the integer kernel at full range plus encoded-length bridge", "DESIGN.md section 3 C10")
+claim("C11",
+      "Partial: the negotiation kernel for every budget (all usize) / overhead / payload / client block never panics and errors carry a 4.xx/5.xx code; the overhead measurement returns for option bloat 0..1400 bytes (below, at, above 1280); intercept_request with the cache lookup modelled returns Ok/Err for any message type, malformed Block2 bytes, budgets 0..5000, and the error renders through apply_from_error.",
+      MODEL + FMT + "Every clause that runs through Vec::splice (requests carrying Block1, the 16 KiB growth bound, rejected-block-leaves-buffer-unchanged) is NOT decided: CBMC cannot execute Vec::splice (out of memory even on a concrete shape).",
+      "Kani/CBMC bounded model checking; no-panic via Kani's implicit checks", "DESIGN.md section 3 C11")
+claim("C12",
+      "Partial: the two mechanisms isolation rests on are decided - the cache key (equal iff method and endpoint equal; segmentation and prefixes of enumerated paths distinguished) and the reply identity (every served block carries the id/token of the request being answered, from an arbitrary cached id/token).",
+      MODEL + FMT + "The interleaving sentence itself (several transfers through one handler) needs the real cache and is not decided; that lru_time_cache keeps states of different keys apart is assumed. Path bytes are enumerated, not symbolic; from_utf8 is a byte-loop model.",
+      "Kani/CBMC bounded model checking of key equality and reply identity", "DESIGN.md section 3 C12")
 claim("C13",
       "Encode/decode decided for every (num: u16, more, szx 0..7); decode for every byte string of length 0..4; constructor for every (usize, bool, usize).",
-      "Diagnostic text outside the claim (core::fmt::write stubbed).",
+      FMT,
       "Kani/CBMC bounded model checking, full domain symbolic", "DESIGN.md section 3 C13")
-for p in ["C01","C02","C03","C04","C07","C08","C09","C10","C11","C12","C14","C15","C16","C17","C18","C19","C20"]:
-    NA[p] = "check not built yet (build in progress); see DESIGN.md"
+claim("C14",
+      "Inductive steps from an arbitrary valid registry (resource with 2 observers of distinct symbolic endpoints, tokens 0..1 byte, any counters / pending ids, plus a bystander resource): register (replace in place / append / new resource), deregister, round on an unobserved path; every step re-establishes one-observer-per-endpoint and leaves the bystander untouched, so histories of any length inside the state bound are covered.",
+      MODEL + FMT + "More than 2 observers per resource; the Uri-Path -> resource key mapping (only the empty path runs through get_path) are outside.",
+      "Kani/CBMC bounded model checking, one inductive step per operation from an arbitrary pre-state", "DESIGN.md section 3 C14")
+claim("C15",
+      "Inductive steps: a notification round for every counter value 0..255 x every limit 0..255 x confirmable flag (kept iff new count <= limit computed without wrap-around); acknowledge for any endpoint / message id across two resources; create_notification for every id, sequence (u32), token 0..8, both types.",
+      MODEL + FMT + "2^32 rounds on one resource (sequence wrap) are outside.",
+      "Kani/CBMC bounded model checking, one inductive step per operation from an arbitrary pre-state", "DESIGN.md section 3 C15")
+claim("C17",
+      "One step of each scanner (link parser, attribute parser, Unquote) from every remaining ASCII input of 0..4 bytes: no panic, yielded slices inside the input and in order, remaining input a strictly shorter suffix - induction over the suffix gives termination, ordering and nothing-after-error; to_cow() = character iteration for every ASCII string of 0..3 bytes.",
+      "Non-ASCII input and longer strings are outside; runs on the real core::str / core::fmt code.",
+      "Kani/CBMC bounded model checking, one scanner step from an arbitrary remaining input", "DESIGN.md section 3 C17")
+claim("C18",
+      "The fault schedule is the symbolic variable: a sink that fails at any write-call index (once or persistently), newline option on/off, documents of 2-3 links written through attr / attr_quoted / attr_u32 / attr_u16: finish() is Err iff a call failed, no call after the first failure, accepted bytes are a prefix of the fault-free run, no fault => Ok and complete output.",
+      "The document shape is a concrete call sequence; other shapes are outside. Runs on the real core::fmt code.",
+      "Kani/CBMC bounded model checking with a symbolic fault position", "DESIGN.md section 3 C18")
+claim("C19",
+      "Method / status accessors for all 256 code bytes; content format for every registered format on top of none / an earlier format / raw bytes; observe flag on raw bytes 0..6; both coap-message trait versions (flattened option view with symbolic numbers, copy through set_from_message, writers); path accessors on enumerated path strings.",
+      MODEL + FMT + "Path strings are enumerated (4 shapes), not symbolic: set_path/get_path on symbolic bytes ran out of memory; from_utf8 is a byte-loop model in the path harnesses.",
+      "Kani/CBMC bounded model checking", "DESIGN.md section 3 C19")
+NA["C09"] = "not applicable: every Block1 upload runs through Vec::splice (Drain/Splice drop glue), which CBMC cannot execute - out of memory at 24 GB even on a fully concrete shape; modelling splice would replace exactly the code the property is about. Only the 4.13 sentence (no splice) is decided, under C10."
+NA["C16"] = "not applicable: one query needs writer + both scanners + Unquote on a document of >= 9 bytes with arbitrary Unicode; the link scanner alone exhausts memory at 5 symbolic ASCII bytes, and at what fits no document contains an attribute value."
+NA["C20"] = "not applicable: expiry/retention/reclamation live in lru_time_cache over std's B-tree and VecDeque with Instant::now (FFI); with a symbolic clock three uses of a bare LruCache did not finish in 15 min. coap-lite's contribution is the wiring only."
